@@ -117,7 +117,7 @@ def finish(prop, tier, obligations, t0, level='model_checking', functions=(), bo
     if PRE:
         for o in PRE:
             o.desc = dict(o.desc or {}, **{'pass': 'quick-tier pass of the thorough run'})
-        mine = set(o.oid for o in obligations)
+        mine = set(o.oid for o in obligations if not (o.verdict == INCONCLUSIVE and (o.detail or '').startswith('not explored')))
         obligations = [o for o in PRE if o.oid not in mine] + list(obligations)
         errors = list(PRE_ERRORS) + list(errors)
         extra = dict(extra or {}, two_pass='the complete quick tier (%d obligations) ran first, then the wall-time budget was spent on the thorough bounds; '
@@ -182,8 +182,8 @@ def finish(prop, tier, obligations, t0, level='model_checking', functions=(), bo
             z3_4_8_12_unsat=sum(x['z3_4_8_12']['unsat'] for x in xcs), z3_4_8_12_inconclusive=sum(x['z3_4_8_12']['inconclusive'] for x in xcs),
             cvc5_1_0_3_unsat=sum(x['cvc5_1_0_3']['unsat'] for x in xcs), cvc5_1_0_3_inconclusive=sum(x['cvc5_1_0_3']['inconclusive'] for x in xcs),
             disagreements=sum(x['disagreements'] for x in xcs))
-    if skipped or budget_s():
-        cov['wall_time_budget'] = dict(budget_s=budget_s(), generated_but_not_explored=len(skipped),
+    if skipped or budget_total():
+        cov['wall_time_budget'] = dict(budget_s=budget_total(), generated_but_not_explored=len(skipped),
                                        note='queries are generated for the whole bound and explored most-expensive / rotated first until the budget is used; '
                                             'the rest is outside this run (raise VF_BUDGET_S to go further); VERIF_SEED rotates the start')
     if extra:
@@ -241,8 +241,9 @@ def fingerprint(text):
 _T0 = time.time()
 
 
-def budget_s():
-    """wall-time budget left for dispatching new obligations (thorough tier; VF_BUDGET_S overrides, 0 = unlimited)"""
+def budget_total():
+    if STASH is not None:
+        return None                      # first (quick-tier) pass of a thorough run is always complete
     v = os.environ.get('VF_BUDGET_S')
     if v is not None:
         total = float(v)
@@ -250,7 +251,13 @@ def budget_s():
         total = 600.0
     else:
         return None
-    if total <= 0:
+    return total if total > 0 else None
+
+
+def budget_s():
+    """wall-time budget left for dispatching new obligations (thorough tier; VF_BUDGET_S overrides, 0 = unlimited)"""
+    total = budget_total()
+    if total is None:
         return None
     return max(1.0, total - (time.time() - _T0))
 
